@@ -1,8 +1,10 @@
 #!/bin/bash
-# runs every registered thorough check on /repo's working tree, one after the other; log to $1 (default /verif/thorough.log)
+# runs every registered thorough check (code of the directory this script lives in - a `vp run` snapshot or /verif -
+# against /repo's working tree), one after the other; log to $1 (default /verif/thorough.log)
+HERE="$(cd "$(dirname "$0")/.." && pwd)"
 LOG="${1:-/verif/thorough.log}"; SEED="${2:-0}"
 : > "$LOG"
-for id in $(python3 -c "import json;print(' '.join(c['property_id'] for c in json.load(open('/verif/MANIFEST.json'))['checks']))"); do
-  VERIF_EVIDENCE_DIR="${THOROUGH_EVIDENCE_DIR:-/verif/evidence_thorough}" /venv/bin/python /verif/check.py $id --tier thorough --seed $SEED 2>&1 | cut -c1-1500 >> "$LOG"
+for id in $(python3 -c "import json;print(' '.join(c['property_id'] for c in json.load(open('$HERE/MANIFEST.json'))['checks']))"); do
+  VERIF_EVIDENCE_DIR="${THOROUGH_EVIDENCE_DIR:-/verif/evidence_thorough}" /venv/bin/python "$HERE/check.py" $id --tier thorough --seed $SEED 2>&1 | cut -c1-1500 >> "$LOG"
   echo "  -> exit ${PIPESTATUS[0]} for $id thorough" >> "$LOG"
 done
